@@ -120,25 +120,25 @@ func checkConsistency(project *types.Project) error {
 		}
 
 		if s.CPUS != 0 && s.Deploy != nil {
-			if s.Deploy.Resources.Limits != nil && s.Deploy.Resources.Limits.NanoCPUs.Value() != s.CPUS {
+			if l := s.Deploy.Resources.Limits; l != nil && l.NanoCPUs != 0 && l.NanoCPUs.Value() != s.CPUS {
 				return fmt.Errorf("services.%s: can't set distinct values on 'cpus' and 'deploy.resources.limits.cpus': %w",
 					s.Name, errdefs.ErrInvalid)
 			}
 		}
 		if s.MemLimit != 0 && s.Deploy != nil {
-			if s.Deploy.Resources.Limits != nil && s.Deploy.Resources.Limits.MemoryBytes != s.MemLimit {
+			if l := s.Deploy.Resources.Limits; l != nil && l.MemoryBytes != 0 && l.MemoryBytes != s.MemLimit {
 				return fmt.Errorf("services.%s: can't set distinct values on 'mem_limit' and 'deploy.resources.limits.memory': %w",
 					s.Name, errdefs.ErrInvalid)
 			}
 		}
 		if s.MemReservation != 0 && s.Deploy != nil {
-			if s.Deploy.Resources.Reservations != nil && s.Deploy.Resources.Reservations.MemoryBytes != s.MemReservation {
+			if r := s.Deploy.Resources.Reservations; r != nil && r.MemoryBytes != 0 && r.MemoryBytes != s.MemReservation {
 				return fmt.Errorf("services.%s: can't set distinct values on 'mem_reservation' and 'deploy.resources.reservations.memory': %w",
 					s.Name, errdefs.ErrInvalid)
 			}
 		}
 		if s.PidsLimit != 0 && s.Deploy != nil {
-			if s.Deploy.Resources.Limits != nil && s.Deploy.Resources.Limits.Pids != s.PidsLimit {
+			if l := s.Deploy.Resources.Limits; l != nil && l.Pids != 0 && l.Pids != s.PidsLimit {
 				return fmt.Errorf("services.%s: can't set distinct values on 'pids_limit' and 'deploy.resources.limits.pids': %w",
 					s.Name, errdefs.ErrInvalid)
 			}
